@@ -55,7 +55,8 @@ from spyne.const.http import HTTP_405, HTTP_500
 from spyne.error import RequestNotAllowed
 from spyne.model.fault import Fault
 from spyne.model.primitive import Date, Time, DateTime
-from spyne.protocol.xml import XmlDocument, refuse_entity_declarations
+from spyne.protocol.xml import XmlDocument, refuse_entity_declarations, \
+                                                             cleanup_namespaces
 from spyne.protocol.soap.mime import collapse_swa
 from spyne.server.http import HttpTransportContext
 
@@ -403,7 +404,7 @@ class Soap11(XmlDocument):
             ctx.out_document.append(ctx.out_body_doc)
 
         if self.cleanup_namespaces:
-            etree.cleanup_namespaces(ctx.out_document)
+            cleanup_namespaces(ctx.out_document)
 
         self.event_manager.fire_event('after_serialize', ctx)
 
